@@ -394,6 +394,8 @@ class Merge(Expr):
                     right_index,
                     self.suffixes,
                     self.indicator,
+                    None,
+                    self.broadcast_side,
                 )
 
         if (shuffle_left_on or shuffle_right_on) and (
@@ -674,6 +676,7 @@ class BroadcastJoin(Merge, PartitionsFiltered):
         "suffixes",
         "indicator",
         "_partitions",
+        "_broadcast_side",
     ]
     _defaults = {
         "how": "inner",
@@ -684,7 +687,17 @@ class BroadcastJoin(Merge, PartitionsFiltered):
         "suffixes": ("_x", "_y"),
         "indicator": False,
         "_partitions": None,
+        "_broadcast_side": None,
     }
+
+    @functools.cached_property
+    def broadcast_side(self):
+        # Decided by the logical Merge: the partition counts of the lowered
+        # inputs (user npartitions, shuffled broadcast side) can rank differently
+        side = self.operand("_broadcast_side")
+        if side is not None:
+            return side
+        return super().broadcast_side
 
     def _divisions(self):
         if self.broadcast_side == "left":
